@@ -1390,6 +1390,14 @@ func produceCase(r *rand.Rand, path string, version int, codec int, rs []rec, to
 		offs = func(int) int64 { return 0 } // Message.Offset is written as is; brokers assign offsets
 	}
 	want := givenCanon(rs, offs, version == 2 || v1WithHeaders)
+	if v1WithHeaders {
+		// message format 1 cannot carry headers: the only correct outcome is a refusal (C05-D32)
+		if err != nil {
+			emit("v1hdr "+path, "refused")
+			return
+		}
+		emit("v1hdr "+path, "accepted")
+	}
 	if err != nil {
 		emit(fmt.Sprintf("wire %s -", tag), "error:"+errClass(err)+" wanted "+want)
 		return
